@@ -85,10 +85,13 @@ def _kf_f18(case, subcheck, detail):
 def _kf_f19(case, subcheck, detail):
     # Nelder-Mead re-applies the constraints to its best vertex at the start of every iteration without
     # re-evaluating it: a non-idempotent (pushing) constraint moves the reported best out of the box
-    if not (subcheck == 'C02.best' and isinstance(detail, dict) and detail.get('solver') == 'NM' and detail.get('constraint')):
+    if not (subcheck == 'C02.best' and isinstance(detail, dict) and detail.get('solver') == 'NM'):
         return False
-    con = detail['constraint']; box = detail.get('box')
-    return con.get('kind') == 'push' or not lab.box_compatible(con, box[0], box[1])
+    box = detail.get('box')
+    # the constraint in force now, or one that was in force earlier in the history (the pushed best stays after the
+    # constraint has been removed again)
+    cons = [detail.get('constraint')] + [op[1] for op in case.get('ops', []) if op[0] == 'constraints']
+    return any(c and (c.get('kind') == 'push' or not lab.box_compatible(c, box[0], box[1])) for c in cons)
 
 
 KNOWN = {'F52-gradient-norm-tolerance-calls-raw-cost': sm_kf_gnt, 'F18-infinite-side-midrun-nan': _kf_f18,
